@@ -224,6 +224,9 @@ func (w *world) exec(o *hop) string {
 		p := c07x.Project(info)
 		o.P = &p
 		th := w.threads[o.T]
+		if th != nil && (th.atLock || th.atStore) {
+			return "HoRes HBad" // the thread is still inside a heartbeat (fixed op lists replayed on changed code)
+		}
 		if th == nil {
 			pk := newParkKV(w.base)
 			th = &thread{kv: pk, rc: w.facade(w.newStorage(pk))}
@@ -254,6 +257,9 @@ func (w *world) exec(o *hop) string {
 		}
 	case "step":
 		th := w.threads[o.T]
+		if th == nil || (!th.atLock && !th.atStore) {
+			return "HoRes HBad" // no label left for this thread
+		}
 		if th.atLock {
 			th.atLock = false
 			th.rc.RUnlock()
@@ -263,6 +269,9 @@ func (w *world) exec(o *hop) string {
 		return w.waitThread(th)
 	case "run":
 		th := w.threads[o.T]
+		if th == nil || (!th.atLock && !th.atStore) {
+			return "HoRes HBad"
+		}
 		th.kv.setPark(false)
 		if th.atLock {
 			th.atLock = false
